@@ -595,6 +595,132 @@ def parse_sem(out, qinst):
     return res
 
 
+def sem_numerators(out, qinst):
+    """The raw query numerators of a SEM output line (parse_sem only keeps the quotients)."""
+    if out.startswith("toobig"):
+        return None
+    m = re.match(r"(\S+) \(([^)]*)\) ", out)
+    if not m:
+        raise Infra("bad SEM output: " + out[:200])
+    return {atom_s(q): F(x) for q, x in zip(qinst, m.group(2).split())}
+
+
+# ------------------------------------------------------------------------------------------------ first-order specification
+_NAME = re.compile(r"[a-z][A-Za-z0-9_]*$")
+
+
+def _fo_term(x, query=False):
+    if x in VARSET or (query and x == "_"):
+        return "(v %s)" % x
+    if not isinstance(x, str) or not _NAME.match(x):
+        raise ValueError("term %r" % (x,))
+    return "(c %s)" % x
+
+
+def _fo_atom(at, query=False):
+    p, args = at
+    if not isinstance(p, str) or not _NAME.match(p) or p in ("v", "c"):
+        raise ValueError("predicate %r" % (p,))
+    return "(%s)" % " ".join([p] + [_fo_term(x, query) for x in args])
+
+
+def _fo_lit(l):
+    t, a = l
+    if t == "or":
+        return "(or %s %s)" % (_fo_atom(a[0]), _fo_atom(a[1]))
+    if t not in ("pos", "neg"):
+        raise ValueError("literal %r" % (t,))
+    return "(%s %s)" % (t, _fo_atom(a))
+
+
+def _fo_stmt(s):
+    body = lambda b: "(body %s)" % " ".join(_fo_lit(l) for l in b)   # noqa: E731
+    if s[0] in ("fact", "pf"):
+        if any(x in VARSET for x in s[-1][1]):
+            raise ValueError("non-ground fact")     # `reference` does not instantiate facts
+        return "(fact %s)" % _fo_atom(s[1]) if s[0] == "fact" else "(pf %s %s)" % (rat(F(s[1])), _fo_atom(s[2]))
+    if s[0] == "rule":
+        return "(rule %s %s)" % (_fo_atom(s[1]), body(s[2]))
+    if s[0] == "prule":
+        return "(prule %s %s %s)" % (rat(F(s[1])), _fo_atom(s[2]), body(s[3]))
+    if s[0] == "ad" and len(s[1]) > 0:
+        return "(ad (heads %s) %s)" % (" ".join("(%s %s)" % (rat(F(p)), _fo_atom(h)) for p, h in s[1]), body(s[2]))
+    raise ValueError("statement %r" % (s[0],))
+
+
+def fo_sexp(P):
+    """The program dict as the S-expression read by the Lean driver (ops SEMFO, GROUNDFO): a purely syntactic rendering,
+    nothing is instantiated or numbered here. None if P is outside what `SemFO.FOProgram` represents with the meaning of
+    `reference` (odd names, non-ground facts, duplicate constants, named variables in queries, empty ADs)."""
+    try:
+        consts = list(P["consts"])
+        if len(set(consts)) != len(consts) or any(c in VARSET or not _NAME.match(c) for c in consts):
+            raise ValueError("constants")
+        for q in P["queries"]:
+            if any(x in VARSET for x in q[1]):
+                raise ValueError("named variable in a query")
+        for a, v in P["evidence"]:
+            if any(x in VARSET or x == "_" for x in a[1]):
+                raise ValueError("non-ground evidence")
+        preds = " ".join("(%s %d)" % (p, ar[0]) for p, ar in P["preds"].items() if _NAME.match(p))
+        return "(fo (consts %s) (preds %s) (stmts %s) (queries %s) (evidence %s))" % (
+            " ".join(consts), preds, " ".join(_fo_stmt(s) for s in P["stmts"]),
+            " ".join(_fo_atom(q, query=True) for q in P["queries"]),
+            " ".join("(%s %s)" % (_fo_atom(a), "t" if v else "f") for a, v in P["evidence"]))
+    except (ValueError, KeyError, TypeError, IndexError):
+        return None
+
+
+def sem_line_fo(P):
+    """Driver line `SEMFO <fo program>`: the specification value of the first-order program P, the Herbrand instantiation
+    done in Lean (`SemFO.ground`, `SemFO.queryInstances`). None if P is not representable (see `fo_sexp`)."""
+    fo = fo_sexp(P)
+    return None if fo is None else "SEMFO " + fo
+
+
+def ground_line_fo(P):
+    fo = fo_sexp(P)
+    return None if fo is None else "GROUNDFO " + fo
+
+
+def reference_text(P):
+    """`reference(P)` rendered like the output of op GROUNDFO (choice ids numbered in group order, as in `sem_line`)."""
+    rules, groups = reference(P)
+    cids = {}
+    for g in groups:
+        for p, c in g:
+            cids[c] = len(cids)
+    rs = ["(%s (%s) %s)" % (atom_s(h), " ".join(("+" if t == "pos" else "-") + atom_s(a) for t, a in b),
+                            "-" if c is None else cids[c]) for h, b, c in rules]
+    gs = ["(%s)" % " ".join("(%s %d)" % (rat(p), cids[c]) for p, c in g) for g in groups]
+    return "(rules %s) (groups %s) %d" % (" ".join(rs), " ".join(gs), len(cids))
+
+
+def parse_sem_fo(out):
+    """Output of op SEMFO -> (result dict as `parse_sem` (None if too big), [query instance text]); "illformed" -> None."""
+    if out == "illformed":
+        return None
+    if " | " not in out:
+        raise Infra("bad SEMFO output: " + out[:200])
+    res, qs = out.rsplit(" | ", 1)
+    if not (qs.startswith("(") and qs.endswith(")")):
+        raise Infra("bad SEMFO output: " + out[:200])
+    qnames = qs[1:-1].split()
+    if res.startswith("toobig"):
+        return None, qnames
+    m = re.match(r"(\S+) \(([^)]*)\) (\d+) (\d+) (\w+) (\w+) (\d+)$", res)
+    if not m:
+        raise Infra("bad SEMFO output: " + out[:200])
+    z = F(m.group(1))
+    nums = [F(x) for x in m.group(2).split()]
+    if len(nums) != len(qnames):
+        raise Infra("bad SEMFO output (numerators/instances): " + out[:200])
+    r = dict(z=z, undef=int(m.group(3)), nworlds=int(m.group(4)), negcycle=(m.group(5) == "true"),
+             negcycle_full=(m.group(6) == "true"), undef_roots=int(m.group(7)), nums=dict(zip(qnames, nums)))
+    r["probs"] = {q: (n / z if z != 0 else None) for q, n in zip(qnames, nums)}
+    return r, qnames
+
+
 # ------------------------------------------------------------------------------------------------ store serialisation
 class Mapper:
     """Injective maps from Python atom identifiers / AD groups / node names to the model's small types."""
